@@ -27,7 +27,7 @@ ID = "C10"
 LEVEL = "model_checking"
 DESIGN_REF = "DESIGN.md 4/C10"
 RULE = (
-    "case = (configuration, operation, schedule): 18 hand-shaped namespace trees (nesting 0..2, several versions of one name, legacy "
+    "case = (configuration, operation, schedule): 21 hand-shaped namespace trees (three of them beyond small scope: 13 legacy files, 10 versions with 1..3-digit numbers, 28 definitions) (nesting 0..2, several versions of one name, legacy "
     ".uavcan files, two roots, cross-root references, targets that are also dependencies sorting before / after their referrer, "
     "diamonds, stray non-definition files) x {read_namespace; read_files for every non-empty target subset (<=5 files: all subsets, "
     "else singles, pairs and the full set) in sorted and reversed list order}; schedules: every choice point (rglob result order, "
@@ -74,6 +74,10 @@ def configs():
     # one definition refers to TWO versions of the same type (directly, and through another definition): both belong to the closure
     C["two-versions-of-one-dependency"] = {"root": "ra", "lookups": ["rb"], "defs": [D("ra", "ra.A", (1, 0), [("rb.X", (0, 1)), ("rb.X", (0, 2))]), D("rb", "rb.X", (0, 1)), D("rb", "rb.X", (0, 2)), D("rb", "rb.X", (0, 3)), D("ra", "ra.B", (1, 0), [("rb.X", (0, 2))])]}
     C["two-versions-through-chain"] = {"root": "ra", "lookups": [], "defs": [D("ra", "ra.A", (1, 0), [("ra.M", (1, 0)), ("ra.X", (2, 0))]), D("ra", "ra.M", (1, 0), [("ra.X", (1, 0))]), D("ra", "ra.X", (1, 0)), D("ra", "ra.X", (2, 0))]}
+    # beyond three of everything: many legacy files, many versions whose numbers have different digit counts, many definitions
+    C["many-legacy"] = {"root": "ra", "lookups": [], "defs": [D("ra", "ra.L%02d" % i, (1, 0), legacy=True) for i in range(11)] + [D("ra", "ra.User", (1, 0), [("ra.L09", (1, 0)), ("ra.L10", (1, 0))]), D("ra", "ra.s.M", (1, 0), legacy=True)]}
+    C["versions-digit-counts"] = {"root": "ra", "lookups": [], "defs": [D("ra", "ra.A", v) for v in ((0, 120), (0, 42), (0, 5), (100, 0), (99, 1), (9, 255), (10, 0), (2, 0), (0, 100), (0, 99))] + [D("ra", "ra.B", (0, 1), [("ra.A", (0, 120)), ("ra.A", (0, 42))])]}
+    C["wide"] = {"root": "ra", "lookups": ["rb"], "defs": [D("ra", "ra.T%02d" % i, (1, 0), ([("ra.T%02d" % (i - 1), (1, 0))] if i % 5 == 4 else []) + ([("rb.X%d" % (i % 3), (1, 0))] if i % 4 == 0 else [])) for i in range(24)] + [D("rb", "rb.X%d" % i, (1, 0)) for i in range(4)]}
     C["same-name-roots"] = {"root": "p/ra", "lookups": ["q/ra"], "defs": [D("p/ra", "ra.A", (1, 0), [("ra.X", (1, 0))]), D("q/ra", "ra.X", (1, 0)), D("q/ra", "ra.Y", (1, 0))]}
     return C
 
@@ -134,6 +138,9 @@ def target_sets(cfg, tier):
     n = len(defs)
     if n <= 5:
         subsets = [list(c) for k in range(1, n + 1) for c in itertools.combinations(range(n), k)]
+    elif n > 9:
+        # large configurations: every third single target, a few pairs, the full set
+        subsets = [[i] for i in range(0, n, 3)] + [[0, n - 1], [n - 1, 0], [n // 2, 1]] + [list(range(n))]
     else:
         subsets = [[i] for i in range(n)] + [list(c) for c in itertools.combinations(range(n), 2)] + [list(range(n))]
     for s in subsets:
